@@ -226,6 +226,19 @@ class ClassInfo:
         self.methods = {}           # name -> FuncInfo
         self.attrs = {}             # class-level constants: name -> ast value
         self.slots_assigned = set()  # attribute names assigned through self in its own methods
+        self.record = False          # NamedTuple / dataclass / namedtuple: a record of its fields
+        self.fields = []
+
+    def all_fields(self):
+        out = []
+        for c in reversed(self.mro()):
+            for f in c.fields:
+                if f not in out:
+                    out.append(f)
+        return out
+
+    def is_record(self):
+        return any(c.record for c in self.mro())
 
     def mro(self):
         out = [self]
@@ -280,6 +293,10 @@ class Program:
                     c.bases.append(self.classes[r[1]])
                 elif isinstance(b, ast.Name) and b.id == 'object':
                     pass
+                elif r and r[0] == 'lib' and r[1] in ('typing.NamedTuple',):
+                    c.record = True
+                elif r and r[0] == 'lib' and r[1] in ('abc.ABC', 'typing.Generic', 'typing.Protocol'):
+                    pass
                 else:
                     raise Unsupported(f"{c.cid}: base class {ast.unparse(b)}")
         self.subclasses = {cid: [d for d in self.classes.values() if c in d.mro()]
@@ -318,6 +335,7 @@ class Program:
                 ci = ClassInfo(cid, m, node)
                 self.classes[cid] = ci
                 mc[node.name] = cid
+                self.class_decorators(m, ci)
                 for sub in node.body:
                     if isinstance(sub, ast.FunctionDef):
                         kind = self.check_decorators(m, sub, in_class=True)
@@ -331,19 +349,77 @@ class Program:
                     elif isinstance(sub, ast.Assign) and all(isinstance(t, ast.Name) for t in sub.targets):
                         for t in sub.targets:
                             ci.attrs[t.id] = sub.value
-                    elif isinstance(sub, ast.Expr) and isinstance(sub.value, ast.Constant):
+                    elif isinstance(sub, ast.AnnAssign) and isinstance(sub.target, ast.Name):
+                        ci.fields.append(sub.target.id)          # a field if the class is a record
+                        if sub.value is not None:
+                            ci.attrs[sub.target.id] = sub.value
+                    elif isinstance(sub, (ast.Expr, ast.Pass)) and (isinstance(sub, ast.Pass) or
+                                                                     isinstance(sub.value, ast.Constant)):
                         pass
                     else:
                         raise Unsupported(f"{cid}: class body statement {ast.unparse(sub)[:60]}")
             elif isinstance(node, ast.Assign):
                 for t in node.targets:
-                    if not isinstance(t, ast.Name):
+                    names = [t] if isinstance(t, ast.Name) else \
+                        list(t.elts) if isinstance(t, (ast.Tuple, ast.List)) else [None]
+                    if not all(isinstance(x, ast.Name) for x in names):
                         raise Unsupported(f"{m}: module-level assignment to {ast.unparse(t)}")
-                    consts[t.id] = node.value
+                    for x in names:
+                        consts[x.id] = node.value if isinstance(t, ast.Name) else ast.Constant(value=None)
+                    if isinstance(t, ast.Name):
+                        self.maybe_namedtuple(m, t.id, node.value)
+            elif isinstance(node, ast.AnnAssign):
+                if not isinstance(node.target, ast.Name):
+                    raise Unsupported(f"{m}: module-level annotated assignment to {ast.unparse(node.target)}")
+                if node.value is not None:
+                    consts[node.target.id] = node.value
+                    self.maybe_namedtuple(m, node.target.id, node.value)
+            elif isinstance(node, ast.If) and ast.unparse(node.test) in ('TYPE_CHECKING', 'typing.TYPE_CHECKING') \
+                    and not node.orelse and all(isinstance(x, (ast.Import, ast.ImportFrom, ast.Pass)) for x in node.body):
+                pass                           # imports for annotations only: never executed
             elif isinstance(node, ast.Expr) and isinstance(node.value, ast.Constant):
                 pass
             else:
                 raise Unsupported(f"{m}: module-level statement {ast.unparse(node)[:60]}")
+
+    def maybe_namedtuple(self, m, name, value):
+        """X = namedtuple('X', [...]) / NamedTuple('X', [...]): a record class"""
+        if not (isinstance(value, ast.Call) and isinstance(value.func, (ast.Name, ast.Attribute))):
+            return
+        r = self.resolve_name(m, value.func)
+        if not (r and r[0] == 'lib' and r[1] in ('collections.namedtuple', 'typing.NamedTuple')):
+            return
+        if len(value.args) < 2:
+            raise Unsupported(f"{m}.{name}: namedtuple without a field list")
+        f = value.args[1]
+        if isinstance(f, ast.Constant) and isinstance(f.value, str):
+            fields = f.value.replace(',', ' ').split()
+        elif isinstance(f, (ast.List, ast.Tuple)):
+            fields = []
+            for e in f.elts:
+                if isinstance(e, ast.Constant):
+                    fields.append(e.value)
+                elif isinstance(e, ast.Tuple) and e.elts and isinstance(e.elts[0], ast.Constant):
+                    fields.append(e.elts[0].value)
+                else:
+                    raise Unsupported(f"{m}.{name}: namedtuple field list is not literal")
+        else:
+            raise Unsupported(f"{m}.{name}: namedtuple field list is not literal")
+        cid = f"{m}.{name}"
+        ci = ClassInfo(cid, m, ast.ClassDef(name=name, bases=[], keywords=[], body=[], decorator_list=[]))
+        ci.record, ci.fields = True, list(fields)
+        self.classes[cid] = ci
+        self.modclasses[m][name] = cid
+        self.consts[m].pop(name, None)
+
+    def class_decorators(self, m, ci):
+        for d in ci.node.decorator_list:
+            dn = d.func if isinstance(d, ast.Call) else d
+            r = self.resolve_name(m, dn)
+            if r and r[0] == 'lib' and r[1] in ('dataclasses.dataclass',):
+                ci.record = True
+                continue
+            raise Unsupported(f"{ci.cid}: class decorator @{ast.unparse(dn)}")
 
     def check_decorators(self, m, node, in_class=False):
         kind = 'method' if in_class else 'function'
@@ -419,6 +495,9 @@ class Program:
                 out.append(c)
         return out
 
+    def field_candidates(self, attr):
+        return [c for c in self.classes.values() if c.is_record() and attr in c.all_fields()]
+
     def classattr_candidates(self, attr):
         return [c for c in self.classes.values() if attr in c.attrs]
 
@@ -439,7 +518,7 @@ def is_immutable_default(node):
 # ----------------------------------------------------------------------------------------------
 # function translator
 # ----------------------------------------------------------------------------------------------
-LIB_CONSTS = {'numpy.pi', 'numpy.inf', 'numpy.nan', 'numpy.newaxis', 'numpy.e',
+LIB_CONSTS = {'numpy.s_', 'numpy.index_exp', 'typing.TYPE_CHECKING', 'numpy.pi', 'numpy.inf', 'numpy.nan', 'numpy.newaxis', 'numpy.e',
               # types used as values (isinstance / dtype=)
               'pandas.Series', 'pandas.DataFrame', 'pandas.Index', 'numpy.ndarray', 'numpy.float64'}
 BUILTIN_VALUES = {'float', 'int', 'object', 'str', 'bool', 'list', 'tuple', 'dict',
